@@ -521,6 +521,55 @@ class Repo(object):
     # ------------------------------------------------------------------
     # constant evaluation
     # ------------------------------------------------------------------
+    _MUTATORS = ("update", "add", "append", "extend", "setdefault", "insert", "pop", "remove", "discard", "clear", "popitem", "sort", "reverse")
+
+    def _filled(self, module, name, value_node, val):
+        """a module-level container as the module's own top-level statements leave it: the statements after its binding that
+        mutate it (TABLE[k] = v in a loop, TABLE.update(...), TABLE += ...) are interpreted on the value, in program order;
+        an `if` whose test folds (PY2) contributes the branch taken"""
+        def mutates(st):
+            for x in ast.walk(st):
+                if isinstance(x, (ast.FunctionDef, ast.Lambda, ast.ClassDef)):
+                    continue
+                if isinstance(x, ast.Subscript) and isinstance(x.ctx, (ast.Store, ast.Del)) and isinstance(x.value, ast.Name) and x.value.id == name:
+                    return True
+                if isinstance(x, ast.AugAssign) and isinstance(x.target, ast.Name) and x.target.id == name:
+                    return True
+                if isinstance(x, ast.Call) and isinstance(x.func, ast.Attribute) and x.func.attr in self._MUTATORS and isinstance(x.func.value, ast.Name) and x.func.value.id == name:
+                    return True
+            return False
+
+        def in_order(body):
+            for st in body:
+                if isinstance(st, ast.If):
+                    try:
+                        taken = st.body if self.ceval(module, st.test) else st.orelse
+                    except Unknown:
+                        yield st
+                        continue
+                    for x in in_order(taken):
+                        yield x
+                else:
+                    yield st
+        after = False
+        todo = []
+        for st in in_order(module.tree.body):
+            if isinstance(st, (ast.Assign, ast.AnnAssign)) and getattr(st, "value", None) is value_node:
+                after = True
+                todo = []
+                continue
+            if after and not isinstance(st, (ast.FunctionDef, ast.ClassDef, ast.Import, ast.ImportFrom)) and mutates(st):
+                todo.append(st)
+        if not todo:
+            return val
+        from .microeval import _Interp, Raised
+        for st in todo:
+            try:
+                _Interp(self, module, {name: val}, 0).stmt(st)
+            except Raised as e:
+                raise Unknown("module-level statement filling %s.%s raises %s" % (module.name, name, e.name))
+        return val
+
     def const(self, module, name):
         if isinstance(module, str):
             module = self.mod(module)
@@ -548,8 +597,18 @@ class Repo(object):
                         raise first
                     except RecursionError:
                         raise first
+                if isinstance(val, (dict, list, set)):
+                    val = self._filled(module, name, rec[1], val)
             elif kind == "unpack":
-                val = self._fold(module, rec[1])[rec[2]]
+                try:
+                    val = self._fold(module, rec[1])[rec[2]]
+                except Unknown as first:
+                    try:
+                        from .microeval import _Interp
+                        it = _Interp(self, module, {}, 0)
+                        val = list(it.iterate(it.expr(rec[1])))[rec[2]]
+                    except (Unknown, RecursionError, IndexError, TypeError):
+                        raise first
             elif kind == "import":
                 src, orig = rec[1], rec[2]
                 if src in self._paths and orig not in self.mod(src).bindings and "%s.%s" % (src, orig) in self._paths:
